@@ -5,6 +5,10 @@ man = json.load(open("MANIFEST.json"))
 for p in sorted(glob.glob("notes/C*.manifest.json")):
     d = json.load(open(p))
     checks = d.get("checks") or ([d["check"]] if "check" in d else ([d] if "property_id" in d else []))
+    if "checks_entry" in d:
+        checks = checks + ([d["checks_entry"]] if isinstance(d["checks_entry"], dict) else list(d["checks_entry"]))
+    if "engines_entry" in d and not d.get("engines"):
+        d["engines"] = [d["engines_entry"]] if isinstance(d["engines_entry"], dict) else list(d["engines_entry"])
     engines = d.get("engines") or ([d["engine"]] if isinstance(d.get("engine"), dict) else [])
     for c in checks:
         pid = c["property_id"]
